@@ -1,6 +1,7 @@
 import Driver.Store
 import NixModel.Pure.DimLink
 import NixModel.Store.AcceptShape
+import NixModel.Pure.DimLinkCopy
 open Lean Nix.Store Nix.DimLink
 
 /-! C05 driver: the structural model's line protocol (`Driver.Store.step`) on the graph part of the
@@ -162,6 +163,11 @@ def step (s : DState) (j : Json) : DState × Json :=
     match Driver.Store.parsePath pj, jInt? ij, Driver.Store.resolveKey g tj, jInt? cj with
     | some p, some i, some t, some c => applyS s (linkDataFrame s p i.toNat t c)
     | _, _, _, _ => (s, bad "args")
+  | [.str "copy_into", dp, .str what, sp, .str name, .bool keep] =>
+    -- `Block.create_data_array / create_tag / create_multi_tag (copy_from=…, name=…, keep_copy_id=…)`
+    match Driver.Store.parsePath dp, Driver.Store.resolveKey g sp with
+    | some dpath, some k => applyS s (copyInto s dpath what k name keep)
+    | _, _ => (s, bad "paths")
   | [.str "dim_unlink", pj, ij] =>
     match Driver.Store.parsePath pj, jInt? ij with
     | some p, some i => applyS s (removeLink s p i.toNat)
